@@ -312,6 +312,17 @@ pub fn pick_cfg(r: &mut Rng) -> (CaseCfg, BackendSpec) {
 
 /// Run a case; returns the outcome and the RecKv backend used (if any).
 pub fn run_spec(spec: &BackendSpec, case: &Case, cfg: &CaseCfg, prerepair: Option<Prerepair>) -> (Result<RunOutcome, String>, Option<RecBackend>) {
+    let dbg = prerepair.as_ref().map(|p| (p.from_step, p.only.as_ref().map(|o| o.values().map(|s| s.len()).sum::<usize>())));
+    let out = run_spec_inner(spec, case, cfg, prerepair);
+    if std::env::var("QV_CF_DEBUG").is_ok() {
+        if let (Some(d), Ok(o)) = (dbg, &out.0) {
+            eprintln!("CF from={} only={:?} first_step={:?} viol={:?} precond={:?}", d.0, d.1, o.oracle.first_c01_step, o.oracle.violations.iter().take(2).map(|v| format!("{} {}", v.1, v.2.render())).collect::<Vec<_>>(), o.oracle.f1_precondition_epochs);
+        }
+    }
+    out
+}
+
+fn run_spec_inner(spec: &BackendSpec, case: &Case, cfg: &CaseCfg, prerepair: Option<Prerepair>) -> (Result<RunOutcome, String>, Option<RecBackend>) {
     match spec.rec() {
         Some(b) => (run_on_from(&b, case, cfg, prerepair.clone()), Some(b)),
         None => (run_on_from(&MemBackend, case, cfg, prerepair), None),
@@ -374,6 +385,7 @@ pub fn worker(ctx: &WorkerCtx, prop: &str) -> Report {
         rep.count("sessions", st.sessions);
         rep.count("set_results", st.set_results);
         rep.count("x_refreshes", st.x_refreshes);
+        rep.count("x_captures_adopted_from_engine_records", st.x_captures_adopted_from_engine);
         rep.count("unchanged_sessions", st.unchanged_sessions);
         rep.count(if rec.is_some() { "cases_dbbacked_reckv" } else { "cases_inmemory" }, 1);
         if case.fan > 32 {
@@ -558,10 +570,17 @@ pub fn worker(ctx: &WorkerCtx, prop: &str) -> Report {
             // one) made the engine skip that demand, the capture happens in a later epoch with
             // another cell value: the first *visible* difference is then a value of an X node,
             // and only a repair from the very beginning lines the capture times up again.
-            let first_is_external_capture = out.oracle.violations.iter().find(|v| v.0 == "C01").is_some_and(|v| {
-                let d = &v.2;
-                d.get("dep").and_then(Json::as_str).is_some_and(|x| x.starts_with('X')) || d.get("node").and_then(Json::as_str).is_some_and(|x| x.starts_with('X'))
-            });
+            // The same holds for the counterfactual run itself: a repair that starts in the middle
+            // of the history removes the finding from there on and thereby shifts later captures;
+            // if what is left of the counterfactual run starts with a value of an X node, the
+            // repair from the very beginning decides.
+            let involves_x = |o: &crate::eng::Oracle| {
+                o.violations.iter().find(|v| v.0 == "C01").is_some_and(|v| {
+                    let d = &v.2;
+                    d.get("dep").and_then(Json::as_str).is_some_and(|x| x.starts_with('X')) || d.get("node").and_then(Json::as_str).is_some_and(|x| x.starts_with('X'))
+                })
+            };
+            let first_is_external_capture = involves_x(&out.oracle) || matches!(&cf, Ok(c) if c.oracle.c01_violated && involves_x(&c.oracle));
             if first_is_external_capture && !matches!(&cf, Ok(c) if !c.oracle.c01_violated) {
                 rep.count("counterfactual_from_the_first_step_for_external_input_capture_time", 1);
                 let (c, _) = run_spec(&spec, &case, &cfg, Some(Prerepair { from_step: 0, only: None }));
